@@ -58,6 +58,10 @@ func GenConfig(t *rapid.T, p GenParams) Config {
 		c.Prealloc = rapid.IntRange(0, 3).Draw(t, "prealloc") == 0
 	}
 	c.InitMeta = rapid.SampledFrom([]uint32{0, 0, 1, 2, 4, 8, 16}).Draw(t, "initMeta")
+	if p.BigAllocs && (c.MaxPages == 0 || c.MaxPages >= 300) && rapid.IntRange(0, 7).Draw(t, "bigMeta") == 0 {
+		// initial meta areas whose free region sits at the boundary of the compact free list entry encoding
+		c.InitMeta = rapid.SampledFrom([]uint32{254, 255, 256, 257}).Draw(t, "initMetaBig")
+	}
 	if c.MaxPages > 0 && uint(c.InitMeta)+3 > c.MaxPages {
 		// Options.Validate demands InitMetaArea < total pages - 2 header pages
 		c.InitMeta = uint32(c.MaxPages) - 3
